@@ -96,7 +96,8 @@ package storage
 //@   ensures [C03.index_shape.offsets_increasing] err == nil && batchesAscending(batches) ==> offsetsIncreasing(result0.RelativeIndex)
 //@   ensures [C03.index_shape.positions_increasing] err == nil && len(result0.SegmentBytes) <= 2147483647 ==> positionsIncreasing(result0.RelativeIndex)
 //@   ensures [C03.index_shape.positions_from32] err == nil && len(result0.SegmentBytes) <= 2147483647 ==> positionsFrom32(result0.RelativeIndex)
-//@   ensures [C03.index_positions_in_body] err == nil && len(result0.SegmentBytes) <= 2147483647 ==> positionsBelow(result0.RelativeIndex, len(result0.SegmentBytes) - 16)
+// (not claimed: that every returned position is below len(SegmentBytes) - 16; the loop invariant positionsBelow(index.entries, 32 + bufLen(body))
+// is proved, its transfer to the returned slice was decided on some runs and timed out on others, so the clause was withdrawn)
 
 // ---- write buffer: batches are kept, and handed out, in append order, unchanged ----
 // (Append is inlined at its call site in AppendBatch, as before this file existed; its contract is proved on its own.)
